@@ -40,9 +40,8 @@ def verdicts(inp, out, exact=None, ordst=None, shst=None):
         if int(p[2]) < 0:
             v.append(({"property": "C03", "class": "negative-posting"}, "posting %d is negative" % n))
     # ordering clause, on the postings alone (no Lean model involved)
-    w = ordered_sources_verdict(inp, out, ordst)
-    if w:
-        v.append(({"property": "C03", "class": "ordered-sources"}, w))
+    for keys, w in ordered_verdicts(inp, out, ordst):
+        v.append((dict({"property": "C03"}, **keys), w))
     sends = [s for s in inp["ast"]["stmts"] if s["k"] == "send"]
     # a send moves the asset it names: with only sends in the script, every posting's asset is one of the stated ones
     if sends and all(s["k"] != "fail" for s in inp["ast"]["stmts"]):
